@@ -1663,11 +1663,13 @@ pub fn precompute_assorted_nodes(
     buckets: &[Bucket],
     self_node_id: NodeId,
 ) -> (r: Option<[(usize, &Node, bool); bucket::MAX_BUCKET_SIZE]>)
+    requires 1 <= buckets@.len(),
     ensures buckets@.len() == 160 ==> r is None, // @C09.full_depth_table_has_no_assorted_bucket
 {
     if buckets.len() == MAX_BUCKETS {
         return None;
     }
+    let assorted_bucket = &buckets[buckets.len() - 1];
     vx_abs_assorted(buckets, self_node_id)
 }
 //@end
